@@ -281,7 +281,7 @@ def fam_graph(full, region_targets):
       clause = "C04.style.chain"
     else:
       clause = "C04.style.precedence"
-    d = "nested-style-with-reference" if clause == "C04.style.nested.chain" else \
+    d = "nested-style-with-reference" if clause == "C04.style.nested.chain" else "inline-attribute-loses" if cyc else \
         f"target={target.split('+')[0]},depth={min(dmax, 2)},diamond={int(diamond)},missing={int(missing)}"
     return {"xml": tt(head("".join(st), layout) + body), "area": "graph", "clause": clause, "d": d, "cyclic": cyc, "key": None}
   return prod.n, decode
@@ -423,8 +423,7 @@ def fam_spacelang():
     p = el("p", {"xml:space": s2, "xml:lang": l2}, [" t ", span, "  w"])
     body = el("body", {"xml:space": s1, "xml:lang": l1}, [el("div", None, [p])])
     xml = tt(head("", el("region", {"xml:id": "r1"})) + body, {"xml:space": s0}, lang=l0)
-    return {"xml": xml, "area": "spacelang", "clause": "C04.anonspan",
-            "d": "space=" + "".join("-" if s is None else s[0] for s in (s0, s1, s2, s3)) + ",lang=" + "".join("-" if l is None else ("e" if l == "" else "f") for l in (l0, l1, l2, l3))}
+    return {"xml": xml, "area": "spacelang", "clause": "C04.anonspan", "d": "spacelang"}
   return prod.n, decode
 
 
@@ -466,7 +465,7 @@ def fam_mixed(maxlen):
     else:
       p = el("p", None, [el("span", a, kids)])
     return {"xml": tt(el("body", None, [el("div", None, [p])])), "area": "mixed", "clause": "C04.anonspan",
-            "d": f"in={container},tc={tc},tokens={''.join(sorted(set(toks)))}"}
+            "d": f"in={container},tc={tc}"}
   return prod.n, decode
 
 
@@ -531,7 +530,7 @@ def fam_param():
     (cell, cl), (ext, xl), (aa, al), (dar, iar, dl) = prod.decode(i)
     a = {"ttp:cellResolution": cell, "tts:extent": ext, "ittp:activeArea": aa, "ttp:displayAspectRatio": dar, "ittp:aspectRatio": iar}
     return {"xml": tt(el("body", None, [el("div", None, [el("p", None, ["x"])])]), a), "area": "param", "clause": "C04.param.other",
-            "d": f"cell={cl},extent={xl},activeArea={al},dar={dl}"}
+            "d": "param", "dp": {"cell": f"form={cl}", "px": f"form={xl}", "activeArea": f"form={al}", "dar": f"form={dl}"}}
   return prod.n, decode
 
 
